@@ -5,6 +5,7 @@ import os
 import signal
 
 import core
+import s3_util as S3
 import uwgutil as U
 from props.c03 import toy_cases
 
@@ -84,8 +85,9 @@ def finite_records(m):
     N = int(m.simTime.days * 24)
     for name in ('WeatherData', 'UCMData', 'UBLData', 'RSMData'):
         lst = getattr(m, name)
-        if len(lst) != N or any(x is None for x in lst):
-            return '%s has %d of %d records' % (name, sum(1 for x in lst if x is not None), N)
+        if len(lst) != N or any(x is None for x in lst) or getattr(m, 'N', N) != N:
+            return '%s has %d records in %d slots (model.N = %s) for a generated window of %d hours' % (
+                name, sum(1 for x in lst if x is not None), len(lst), getattr(m, 'N', None), N)
     for n in range(N):
         u, w, b = m.UCMData[n], m.WeatherData[n], m.UBLData[n]
         vals = dict(canTemp=u.canTemp, canHum=u.canHum, canRHum=u.canRHum, Tdp=u.Tdp, wind=w.wind,
@@ -109,6 +111,254 @@ def numeric_file(path, first, n, prec):
             if not pat.match(rows[i][c]):
                 return 'row %d column %d written as %r' % (i, c, rows[i][c])
     return None
+
+
+# ----------------------------------------------------------------------------------------------------------
+# What a call sequence leaves behind (fail-stop across calls):
+#   (a) parameters changed between generate() and simulate(): a normal return must still hold every record;
+#   (b) write_epw() after a simulate() that raised part-way (or failing itself on a record): the output path
+#       must hold no file, or - byte for byte - the complete file that was there before.
+def records_complete(m):
+    """`simulate` returned normally: every one of the N hourly records exists (N as the model reports it,
+    and as allocated)."""
+    n = getattr(m, 'N', None)
+    for name in ('WeatherData', 'UCMData', 'UBLData', 'RSMData'):
+        lst = getattr(m, name)
+        miss = [i for i, x in enumerate(lst) if x is None]
+        if miss or len(lst) != n:
+            return '%s: %d of N = %s hourly records are missing (%d slots, first missing hour %s)' % (
+                name, len(miss), n, len(lst), miss[0] if miss else None)
+    return None
+
+
+def file_bytes(path):
+    return open(path, 'rb').read() if os.path.exists(path) else None
+
+
+def describe_file(path, m):
+    rows = list(csv.reader(open(path, newline='', errors='ignore')))
+    total = 8 + len(m.epwinput)
+    if len(rows) != total:
+        return 'a file with %d of %d lines (%d hourly rows are missing)' % (len(rows), total, total - len(rows))
+    return 'a file of full length whose content changed'
+
+
+def changed_after_generate(chk, work):
+    import simdriver
+    import simtoy
+    rng = chk.rng
+    n = 16 if chk.tier == 'quick' else 120
+    other_epw = simdriver.epw_path(simdriver.EPWS[1])
+    kinds = ['nday+1', 'nday+2', 'nday*', 'nday-', 'month', 'day', 'dtsim-div', 'dtsim-nondiv', 'dtweather',
+             'epw_path', 'bld-inplace', 'nday+1 & month']
+    bad, br = 0, {}
+    for k in range(n):
+        kind = kinds[k % len(kinds)]
+        month, day = rng.choice([(1, 1), (2, 27), (6, 30), (7, 4), (12, 28), (2, 30), (4, 31), (11, 31)])
+        days = rng.choice([1, 2, 3]) if kind != 'nday-' else rng.choice([2, 3])
+        dt = rng.choice([300, 600, 900, 1200, 1800, 3600, 400])
+        name = 'cg%d.epw' % (k % 3)
+        S3.remove_if_exists(os.path.join(work, name))
+        with core.quiet():
+            m = simdriver.build_model(month, day, days, dt, new_epw_dir=work, new_epw_name=name)
+        m.bld = list(m.bld)
+        if kind.startswith('nday+'):
+            m.nday = days + int(kind[5])
+        elif kind == 'nday*':
+            m.nday = rng.choice([7, 30, 31, 365])
+        elif kind == 'nday-':
+            m.nday = days - 1
+        if kind.endswith('month'):
+            m.month = rng.choice([3, 8, 11])
+        elif kind == 'day':
+            m.day = rng.choice([2, 15, 28])
+        elif kind == 'dtsim-div':
+            m.dtsim = rng.choice([150, 450, 720])
+        elif kind == 'dtsim-nondiv':
+            m.dtsim = rng.choice([7, 480, 1000])
+        elif kind == 'dtweather':
+            m.dtweather = 1800
+        elif kind == 'epw_path':
+            m.epw_path = other_epw
+        elif kind == 'bld-inplace':
+            m.bld[0] = ('hospital', 'new', m.bld[0][2])
+        case = {'generate_with': {'month': month, 'day': day, 'nday': days, 'dtsim': dt}, 'then_changed': kind,
+                'values_at_simulate': {'month': m.month, 'day': m.day, 'nday': m.nday, 'dtsim': m.dtsim}}
+        err = simtoy.toy_morph_simulate(m, rng.randint(0, 999), 0)
+        msg = None
+        if err is None:
+            br['returned'] = br.get('returned', 0) + 1
+            msg = records_complete(m)
+            if msg is None:
+                try:
+                    with core.quiet():
+                        m.write_epw()
+                    msg = numeric_file(m.new_epw_path, m.simTime.timeInitial, len(m.UCMData), 1)
+                except Exception as e:  # noqa: BLE001
+                    msg = 'write_epw raised %s after a normal return of simulate' % type(e).__name__
+        else:
+            br['raised ' + err] = br.get('raised ' + err, 0) + 1
+        if msg:
+            bad += 1
+            if bad <= 3:
+                chk.violation('impl-violation', 'simulate() returned normally with incomplete records '
+                                                '(parameter changed after generate)', case=case, observed=msg,
+                              expected='every one of the N hourly records exists whenever simulate returns normally')
+    # the same with the real physics (two runs)
+    real = [('nday', 1, 2), ('nday', 2, 1)] + ([('nday', 1, 3), ('month', 1, 1)] if chk.tier == 'thorough' else [])
+    for what, d0, d1 in real:
+        m = U.new_model(outdir=work, outname='cgr.epw', month=6, day=1, nday=d0, dtsim=300)
+        with core.quiet():
+            m.generate()
+        if what == 'nday':
+            m.nday = d1
+        else:
+            m.month = 9
+        try:
+            with core.quiet():
+                m.simulate()
+            msg = records_complete(m) or finite_records(m)
+            br['real returned'] = br.get('real returned', 0) + 1
+        except Exception:  # noqa: BLE001 - fail-stop outcome
+            msg = None
+            br['real raised'] = br.get('real raised', 0) + 1
+        if msg:
+            bad += 1
+            chk.violation('impl-violation', 'simulate() returned normally with incomplete records (parameter '
+                                            'changed after generate, real physics)',
+                          case={'generate_with_nday': d0, 'then': '%s changed, nday = %d' % (what, m.nday)},
+                          observed=msg, expected='every one of the N hourly records exists and is finite')
+    chk.direct('parameters-changed-after-generate(records complete on return)', n + len(real), n + len(real),
+               'generate() [start dates incl. 2/30, 4/31, 11/31, which the package accepts]; then nday raised by 1, 2 or to 7..365 / lowered, month, day, dtsim (divisor and '
+               'non-divisor of 3600), dtweather, rural path or the stock (in place) changed; simulate() [toy '
+               'physics; %d runs with the real physics]: whenever it returns normally all four record lists hold '
+               'N = model.N records without gaps and write_epw writes numeric fields' % len(real),
+               mismatches=bad, branches=br)
+
+
+def write_after_failure(chk, work):
+    import simdriver
+    import simtoy
+    rng = chk.rng
+    n = 14 if chk.tier == 'quick' else 100
+    bad, br = 0, {}
+
+    def judge(m, before, case, what):
+        """after a failing call sequence the output path holds what it held before"""
+        nonlocal bad
+        after = file_bytes(m.new_epw_path)
+        if after == before:
+            return
+        bad += 1
+        if bad <= 3:
+            chk.violation('impl-violation', 'weather file left behind by a failed run (%s)' % what, case=case,
+                          observed='%s: the output path now holds %s' % (
+                              'no file existed before' if before is None else
+                              'the complete file of an earlier run was there before',
+                              describe_file(m.new_epw_path, m) if after is not None else 'nothing'),
+                          expected='no file, or the earlier complete file byte for byte: a run that raised never '
+                                   'writes a weather file with missing values')
+
+    for k in range(n):
+        kind = ['raise-partway', 'raise-partway+earlier-file', 'raise-first-step', 'bad-precision',
+                'raise-partway+earlier-file-same-object', 'bad-precision+earlier-file', 'missing-dir'][k % 7]
+        month, day = rng.choice([(1, 1), (3, 1), (6, 15), (12, 29), (2, 30), (4, 31)])
+        days = rng.choice([1, 2, 3])
+        dt = rng.choice([600, 900, 1800, 3600])
+        name = 'wf%d.epw' % k
+        with core.quiet():
+            m = simdriver.build_model(month, day, days, dt, new_epw_dir=work, new_epw_name=name)
+        case = {'month': month, 'day': day, 'nday': days, 'dtsim': dt, 'sequence': kind}
+        before = None
+        if 'earlier-file' in kind:
+            # an earlier complete run wrote the same output path (same object, or another one)
+            e = m if 'same-object' in kind else simdriver.build_model(month, day, days, dt, new_epw_dir=work,
+                                                                       new_epw_name=name)
+            err = simtoy.toy_morph_simulate(e, rng.randint(0, 999), 0)
+            with core.quiet():
+                e.write_epw()
+            before = file_bytes(m.new_epw_path)
+            if err or before is None or numeric_file(m.new_epw_path, e.simTime.timeInitial, 24 * days, 1):
+                raise core.Infra('earlier complete run did not produce a complete file')
+            if e is m:
+                with core.quiet():
+                    m.generate()
+        if kind.startswith('raise'):
+            s0 = rng.randint(0, 999)
+            mod = 1 if kind == 'raise-first-step' else None
+            err, tries = None, 0
+            while mod is None or err is None:
+                # a raise modulus that really fires part-way (after >= 1 record, before the last)
+                mod = mod or rng.choice([53, 97, 211, 401])
+                err = simtoy.toy_morph_simulate(m, s0, mod)
+                got = sum(1 for u in m.UCMData if u is not None)
+                if err == 'sim-fatal' and (kind == 'raise-first-step' or 0 < got < 24 * days):
+                    break
+                tries += 1
+                if tries > 40:
+                    raise core.Infra('no toy run that raises part-way found')
+                with core.quiet():
+                    m.generate()
+                s0, mod, err = rng.randint(0, 999), None, None
+            case['records_before_the_exception'] = got
+            br['%s(%s)' % (kind, 'some records' if got else 'no record')] = \
+                br.get('%s(%s)' % (kind, 'some records' if got else 'no record'), 0) + 1
+            try:
+                with core.quiet():
+                    m.write_epw()
+                case['write_epw'] = 'returned'
+            except Exception as e:  # noqa: BLE001
+                case['write_epw'] = 'raised ' + type(e).__name__
+            judge(m, before, case, 'simulate raised, then write_epw')
+        else:
+            err = simtoy.toy_morph_simulate(m, rng.randint(0, 999), 0)
+            if err:
+                raise core.Infra('toy run without raise modulus raised: %s' % err)
+            if kind == 'missing-dir':
+                m._new_epw_path = None
+                m._new_epw_dir = os.path.join(work, 'no-such-dir')
+            else:
+                m.epw_precision = rng.choice([1.5, '1', None, -1])
+            case['epw_precision'] = repr(m.epw_precision)
+            br[kind] = br.get(kind, 0) + 1
+            try:
+                with core.quiet():
+                    m.write_epw()
+                case['write_epw'] = 'returned'
+                if numeric_file(m.new_epw_path, m.simTime.timeInitial, 24 * days, 1):
+                    judge(m, before, case, 'write_epw with an unusable precision')
+            except Exception as e:  # noqa: BLE001
+                case['write_epw'] = 'raised ' + type(e).__name__
+                judge(m, before, case, 'write_epw raised on a record')
+    # the real physics: a run that diverges after some days (Singapore, dtsim = 900, 5 days from 1 March)
+    aux = 0
+    if chk.tier == 'thorough' or True:
+        m = U.new_model(outdir=work, outname='wfreal.epw', month=3, day=1, nday=5, dtsim=900)
+        with core.quiet():
+            m.generate()
+        try:
+            with core.quiet():
+                m.simulate()
+            chk.notes.append('write-after-failure: the real 5-day run at dtsim=900 did not diverge (no verdict)')
+        except Exception:  # noqa: BLE001
+            got = sum(1 for u in m.UCMData if u is not None)
+            case = {'param': U.PARAM_SGP, 'month': 3, 'day': 1, 'nday': 5, 'dtsim': 900,
+                    'records_before_the_exception': got}
+            try:
+                with core.quiet():
+                    m.write_epw()
+                case['write_epw'] = 'returned'
+            except Exception as e:  # noqa: BLE001
+                case['write_epw'] = 'raised ' + type(e).__name__
+            aux = 1
+            br['real blow-up after %d h' % got] = 1
+            judge(m, None, case, 'real physics diverged, then write_epw')
+    chk.direct('write_epw-after-failed-call(no partial file, earlier file intact)', n + aux, n + aux,
+               'toy physics raising after k records (0 < k < N, and at the first step), then write_epw() on the same '
+               'object; write_epw with an unusable epw_precision / missing directory after a complete run; each '
+               'with and without a complete file of an earlier run (same or another object) at the output path; '
+               'one real Singapore run that diverges (dtsim 900, 5 days from 1 March): afterwards the path holds '
+               'no file or the earlier file byte for byte', mismatches=bad, branches=br)
 
 
 def run(chk):
@@ -278,6 +528,8 @@ def run(chk):
                'bounds, written fields match -?d+(.d)?; all-zero and half-zero internal-load schedules simulate; '
                'the shipped blow-up parameter set at dtsim=3600 ends in an exception (%s)' % (
                    'raised' if nfatal else 'returned valid records'), mismatches=bad3)
+    changed_after_generate(chk, work)
+    write_after_failure(chk, work)
     chk.assumptions.append('non-finite values: `canTemp > 350 or canTemp < 200` is false for NaN, so a NaN would pass '
                            'the code\'s own check - outside the exact model; the scan of every record and written field '
                            'on real runs covers it. Hangs inside libm / the OS are outside.')
